@@ -41,6 +41,7 @@ type step struct {
 	O      string  `json:"o"`
 	S      string  `json:"s"`
 	B      int     `json:"b"`
+	Iss    string  `json:"iss"` // create: the account in the ISSUER name of the submitted certificate (information)
 	OK     bool    `json:"ok"`
 	Stage  string  `json:"stage"`
 	Err    string  `json:"err"`
@@ -99,6 +100,17 @@ func (r *runner) materialise(script []action) (sdk.Context, []entry, string, err
 	}
 	ents, raw, err := r.c.project(ctx, r.u)
 	return ctx, ents, raw, err
+}
+
+// issuerName: the account in the ISSUER name of the certificate a create action submits ("" otherwise).
+func (u *universe) issuerName(a action) string {
+	if a.K != "create" {
+		return ""
+	}
+	if cb := u.cert(a.O, a.S, a.B); cb != nil {
+		return cb.Issuer
+	}
+	return ""
 }
 
 func (r *runner) write(s step) error {
@@ -166,7 +178,7 @@ func (r *runner) graph(edges []edge, qmode string, pathsOut string) error {
 				return err
 			}
 			id := stateID(ents)
-			st := step{Ev: e.Act.K, Signer: e.Act.Signer, Mo: e.Act.Mo, O: e.Act.O, S: e.Act.S, B: e.Act.B,
+			st := step{Ev: e.Act.K, Signer: e.Act.Signer, Mo: e.Act.Mo, O: e.Act.O, S: e.Act.S, B: e.Act.B, Iss: r.u.issuerName(e.Act),
 				OK: res.OK, Stage: res.Stage, Err: res.Err, Reg: ents, Sid: id}
 			_, seen := reps[id]
 			if !seen {
@@ -245,7 +257,7 @@ func (r *runner) paths(scripts [][]action) error {
 			if err != nil {
 				return err
 			}
-			st := step{Ev: a.K, Signer: a.Signer, Mo: a.Mo, O: a.O, S: a.S, B: a.B, OK: res.OK, Stage: res.Stage,
+			st := step{Ev: a.K, Signer: a.Signer, Mo: a.Mo, O: a.O, S: a.S, B: a.B, Iss: r.u.issuerName(a), OK: res.OK, Stage: res.Stage,
 				Err: res.Err, Reg: ents, Sid: stateID(ents), HasQ: true, Q: r.c.queries(ctx, r.u, r.ps)}
 			if res.OK {
 				r.stats["accepted"]++
@@ -281,7 +293,8 @@ func Main(args []string) int {
 	fs := flag.NewFlagSet("cert", flag.ContinueOnError)
 	owners := fs.String("owners", "A,B", "model owner ids")
 	serials := fs.String("serials", "z0,s1,s256,s2e64", "serial classes")
-	bodies := fs.Int("bodies", 2, "distinct certificates per (owner, serial)")
+	bodies := fs.Int("bodies", 2, "distinct self-issued certificates per (owner, serial)")
+	foreign := fs.String("foreign", "", "serial classes that also have body bodies+1: subject = owner, issuer = another owner")
 	pss := fs.String("pagesizes", "1,2,0", "page sizes; 0 = no pagination")
 	in := fs.String("in", "", "edges (graph) or scripts (paths) ndjson file")
 	outp := fs.String("out", "", "trace ndjson to write")
@@ -294,7 +307,7 @@ func Main(args []string) int {
 		fmt.Fprintln(os.Stderr, "certh:", err)
 		return 2
 	}
-	u, err := newUniverse(splitList(*owners), splitList(*serials), *bodies)
+	u, err := newUniverse(splitList(*owners), splitList(*serials), *bodies, splitList(*foreign))
 	if err != nil {
 		return fail(err)
 	}
